@@ -198,6 +198,30 @@ U_C10_Back == {DeclP([C0 |-> Class(DefaultOpts, <<MvField(IntF("a", 2, FALSE, "d
                                                        U1("c")>>)], {0, 1, 2}, 5, {0, 1}) : k \in {1, 2, 3}}
 U_C10 == U_C10_Flat \cup U_C10_Nest \cup U_C10_Class \cup U_C10_Elem \cup U_C10_Back
 
+\* -------------------------------------------------------------------- C03
+\* runs of fixed-size fields with and without a struct code, mixed byte order and signedness, variable
+\* fields between them: what the code generator groups into blocks
+FixedKinds == {U1("f"), IntF("f", 2, FALSE, "default"), IntF("f", 2, FALSE, "little"), IntF("f", 2, TRUE, "big"),
+               IntF("f", 3, FALSE, "default"), DataF("f", SzConst(2))}
+Rename(f, nm) == [f EXCEPT !.name = nm]
+U_C03_Fixed == {DeclO([DefaultOpts EXCEPT !.endian = e], <<Rename(a, "a"), Rename(b, "b"), Rename(c, "c")>>, {0, 255}, 6) :
+                   a \in FixedKinds, b \in FixedKinds, c \in FixedKinds, e \in {"none"}}
+               \cup {DeclO([DefaultOpts EXCEPT !.endian = "little"], <<Rename(a, "a"), Rename(b, "b"), IntF("c", 2, FALSE, "network")>>, {0, 255}, 6) :
+                   a \in FixedKinds, b \in FixedKinds}
+U_C03_Mixed ==
+    {DeclP([C0 |-> Class(DefaultOpts, <<U1("a"), IntF("b", 2, FALSE, "default"), mid, IntF("y", 2, FALSE, "little"), U1("z")>>), C1 |-> Sub1],
+           {0, 1, 2}, 7, {0, 1}) :
+        mid \in {DataF("m", SzField("a")), RefF("m", "C1"), RepCountF("m", U1("e"), SzField("a"), NoCond, 0),
+                 OptF("m", IntF("e", 2, FALSE, "default"), SzField("a")), DataF("m", SzMarker(<<0>>, FALSE, TRUE)),
+                 WithMv(U1("m"), "at", SzConst(4), "innermost-pkt")}}
+    \cup {DeclO(DefaultOpts, <<U1("a"), BitsF("h", 4), BitsF("l", 4), IntF("b", 2, FALSE, "default"), U1("z")>>, {0, 165, 255}, 5),
+          DeclO(DefaultOpts, <<WithDesc(U1("n"), [kind |-> "autolen", of |-> "d"]), IntF("m", 2, FALSE, "default"), DataF("d", SzField("n")),
+                               U1("z")>>, {0, 1, 2}, 6),
+          DeclO(DefaultOpts, <<IntF("a", 4, TRUE, "default"), IntF("b", 4, FALSE, "little"), U1("z")>>, {0, 1, 127}, 9)}
+U_C03 == U_C03_Fixed \cup U_C03_Mixed
+U_C03_Q == {d \in U_C03_Fixed : d.prog["C0"].opts.endian = "little" \/ d.prog["C0"].fields[1].k = "Data"
+                                 \/ (d.prog["C0"].fields[1].k = "Int" /\ d.prog["C0"].fields[1].n \in {1, 3})} \cup U_C03_Mixed
+
 \* -------------------------------------------------------------------- C12
 \* nested declarations driven into failure at every depth
 U_C12 ==
